@@ -24,6 +24,7 @@ structure Struct (s : KState) : Prop where
   root : ∀ n ∈ s.nodes, n.key = rootKey → n.creator = some rootKey
   dkinds : ∀ d ∈ s.deps, depKindOk d.src.kind d.snk.kind = true
   closed : ∀ d ∈ s.deps, (s.find? d.src).isSome = true ∧ (s.find? d.snk).isSome = true
+  roots : ∀ n ∈ s.nodes, n.key.kind = .root → n.key = rootKey
 
 /-- What a directly detached file must satisfy: its creator, when a step, has no edge into it any
 more (`reset_for_rerun` deletes the edge of an amended output before it detaches the file). -/
